@@ -92,7 +92,12 @@ static int add_double(yaml_document_t *document, double value, int precision)
     int tag;
 
     assert(precision >= 1);
-    if ((buf = format_scalar("%.*e", precision - 1, value)) == NULL) {
+    if (precision == VNACAL_MAX_PRECISION) {
+	buf = format_scalar("%a", value);
+    } else {
+	buf = format_scalar("%.*e", precision - 1, value);
+    }
+    if (buf == NULL) {
 	return -1;
     }
     tag = yaml_document_add_scalar(document, NULL,
